@@ -146,7 +146,7 @@ func (check) Run(seed int64, tier string, idx int, verbose bool) harness.Result 
 		for depth := 0; depth < 2 && r.Intn(2) == 0; depth++ {
 			var cand []string
 			for _, k := range srcTree.SortedKeys() {
-				if v := srcTree.D[k]; v.IsSub() && (len(v.D) > 0 || len(v.A) > 0) && !(len(v.A) > 0) {
+				if v := srcTree.D[k]; v.IsSub() && (len(v.D) > 0 || len(v.A) > 0) {
 					cand = append(cand, k)
 				}
 			}
@@ -160,13 +160,26 @@ func (check) Run(seed int64, tier string, idx int, verbose bool) harness.Result 
 			}
 			src, srcTree = ch, srcTree.D[k]
 			srcKind = []string{"child", "grandchild"}[depth]
+			if len(srcTree.A) > 0 {
+				srcKind += "-list"
+				break
+			}
 		}
 		log = append(log, fmt.Sprintf("src=%s of %s (refs=%v)", srcKind, st, refs))
 		res.SetAdd("source_kind", srcKind)
 
 		// --- destination ---
 		var dst *ucfg.Config
-		if r.Intn(2) == 0 {
+		if len(srcTree.A) > 0 && r.Intn(2) == 0 {
+			// a list source meets a list destination (top-level lists are merged in place)
+			dl := model.List(model.P("d0"), model.Dict().Set("a", model.P("d1")))
+			dst, err = ucfg.NewFrom(dl.ToGo(), rdOpts...)
+			if err != nil {
+				fail("newfrom-error", "NewFrom(%s): %v", dl, err)
+				return
+			}
+			log = append(log, fmt.Sprintf("dst=%s", dl))
+		} else if r.Intn(2) == 0 {
 			dst = ucfg.New()
 			log = append(log, "dst=empty")
 		} else {
@@ -188,6 +201,9 @@ func (check) Run(seed int64, tier string, idx int, verbose bool) harness.Result 
 		// --- placement ---
 		var from interface{}
 		placement := []string{"direct", "map", "nested-map", "slice-twice", "struct-ptr", "struct-value", "map-twice"}[r.Intn(7)]
+		if len(srcTree.A) > 0 && r.Intn(2) == 0 {
+			placement = "direct"
+		}
 		switch placement {
 		case "direct":
 			from = src
@@ -270,7 +286,7 @@ func (check) Run(seed int64, tier string, idx int, verbose bool) harness.Result 
 				}
 				rdO = fmt.Sprintf("%s|%v", model.CanonIfc(m), e != nil)
 			}
-			names := []string{"a", "b", "c", "a.b", "a.a", "emb", "emb.a", "emb.a.b", "emb2.b", "m.emb.a", "l.0.a", "l.2.b", "x", "y.z", "b.0"}
+			names := []string{"a", "b", "c", "a.b", "a.a", "emb", "emb.a", "emb.a.b", "emb2.b", "m.emb.a", "l.0.a", "l.2.b", "x", "y.z", "b.0", "0", "1.a", "2", "0.b"}
 			name := names[r.Intn(len(names))]
 			var err error
 			var what string
